@@ -315,6 +315,8 @@ SUF_SUBST = [
     (r'Handler\(\)\.OnIntSuffix\(sr\);', 'vp_OnSuffix(&sr, 0);', 1),
     (r'CheckReader\(\s*sr, readresult_\s*\)', 'CheckReader(&sr, &readresult_)', 2),
 ]
+SUF_POST = ('(__CPROVER_return_value == NLW2_SOLRead_OK || __CPROVER_return_value == NLW2_SOLRead_Bad_Suffix || '
+            '__CPROVER_return_value == readresult_)')
 CODES = ('(__CPROVER_return_value == NLW2_SOLRead_OK || __CPROVER_return_value == NLW2_SOLRead_Early_EOF || '
          '__CPROVER_return_value == NLW2_SOLRead_Bad_Format || __CPROVER_return_value == NLW2_SOLRead_Bad_Line || '
          '__CPROVER_return_value == NLW2_SOLRead_Bad_Suffix || __CPROVER_return_value == NLW2_SOLRead_Vector_Not_Finished || '
@@ -328,7 +330,7 @@ XP_INV = ('__CPROVER_same_object(s, SR.xp_data) && __CPROVER_OBJECT_SIZE(SR.xp_d
 
 
 def gsufread_fn(contract=True):
-    c = ('__CPROVER_requires(__CPROVER_r_ok(f, sizeof(FILE))) __CPROVER_ensures(' + CODES + ') '
+    c = ('__CPROVER_requires(__CPROVER_r_ok(f, sizeof(FILE))) __CPROVER_ensures(' + CODES + ' && ' + SUF_POST + ') '
          '__CPROVER_assigns(readresult_, i, g_serror_calls, g_nul_ptr, g_big_hi, __CPROVER_object_whole(g_big))')
     return Fn(HPP, r'NLW2_SOLReadResultCode SOLReader2<SOLHandler>::gsufread\(FILE\* f\)', 'NLW2_SOLReadResultCode gsufread(FILE *f)',
               contract=c if contract else '',
@@ -362,7 +364,7 @@ void harness(void) { VP_INIT; vp_mkpool(); FILE f; binary = 0; readresult_ = non
 
 
 def bsufread_fn(contract=True):
-    c = ('__CPROVER_requires(__CPROVER_r_ok(f, sizeof(FILE))) __CPROVER_ensures(' + CODES + ') '
+    c = ('__CPROVER_requires(__CPROVER_r_ok(f, sizeof(FILE))) __CPROVER_ensures(' + CODES + ' && ' + SUF_POST + ') '
          '__CPROVER_assigns(readresult_, i, g_serror_calls, g_big_hi, __CPROVER_object_whole(g_big))')
     return Fn(HPP, r'NLW2_SOLReadResultCode SOLReader2<SOLHandler>::bsufread\(FILE\* f\)', 'NLW2_SOLReadResultCode bsufread(FILE *f)',
               contract=c if contract else '',
@@ -380,9 +382,112 @@ void harness(void) { VP_INIT; vp_mkpool(); FILE f; binary = 1; readresult_ = non
                    stubs=['fread', 'strncmp', 'SuffixInfo ctor (sink)', 'SOLHandler::OnIntSuffix/OnDblSuffix (reads all, some or none)'])
 
 
+
+# ---------------------------------------------------------------------------------------------
+# ReadSOLFile: the whole 330-line member function
+
+RSF_MEMBERS = '''
+/* further members of SOLReader2 */
+char *b1, buf[512], *s, *se;
+Long Objno[2]; Long nOpts, Options[14], *z;
+uiolen L, L1, L2;
+int bs, have_options, j, je, need_vbtol, nsv, objno, sstatus_seen;
+double vbtol, x;
+size_t n, n1, nbs, ui;
+FILE g_file; int g_file_ok;
+/* sinks */
+void vp_msg_append(const char *p, size_t len) {
+  __CPROVER_assert(len == 0 || __CPROVER_r_ok(p, len), "solve message bytes appended are inside the line buffer");
+}
+void vp_send_message(size_t nbs_) {}
+void vp_options_assign(const Long *first, const Long *last) {
+  __CPROVER_assert(__CPROVER_same_object(first, Options) && __CPROVER_same_object(last, Options) &&
+                   __CPROVER_POINTER_OFFSET(last) <= sizeof(Options) && first <= last, "AMPL options handed over are inside Options[14]");
+}
+int vp_OnAMPLOptions(void) { return nondet_int(); }
+void vp_OnObjno(int o) {}
+void vp_OnSolveCode(int c) {}
+'''
+
+RSF_SUBST = [
+    (r'File file;', '', 1),
+    (r'stub_ = name\.c_str\(\);', 'stub_ = name;', 1),
+    (r'file\.Open\(stub_, "rb"\);', 'g_file_ok = nondet_bool();', 1),
+    (r'if \(!file\)', 'if (!g_file_ok)', 1),
+    (r'FILE\* f = file\.GetHandle\(\);', 'FILE *f = &g_file;', 1),
+    (r'solve_msg_\.append\(b1, n1\);', 'vp_msg_append(b1, n1);', 2),
+    # R18 block stub: trimming of leading backspaces and hand-over of the message string (std::string iterators)
+    (r'if \(nbs\) \{\s*auto b=solve_msg_\.begin\(\);.*?Handler\(\)\.OnSolveMessage\(\s*solve_msg_\.c_str\(\), nbs\);\s*\}',
+     'vp_send_message(nbs);', 1),
+    (r'typename SOLHandler::AMPLOptions ao;', '', 1),
+    (r'ao\.options_\.assign\(Options, Options\+nOpts\+5\);', 'vp_options_assign(Options, Options+nOpts+5);', 1),
+    (r'ao\.has_vbtol_ = need_vbtol;', '', 1),
+    (r'ao\.vbtol_ = vbtol;', '', 1),
+    (r'if \(auto rv = Handler\(\)\.OnAMPLOptions\(ao\)\)', 'int rv = vp_OnAMPLOptions(); if (rv)', 1),
+    (r'VecReader<double> vr\(f, binary, (\w+)\);', r'VecReader vr = vp_VecReader(f, binary, \1);', 3),
+    (r'Handler\(\)\.OnDualSolution\(vr\);', 'vp_OnDualSolution(&vr);', 1),
+    (r'Handler\(\)\.OnPrimalSolution\(vr\);', 'vp_OnPrimalSolution(&vr);', 2),
+    (r'CheckReader\(\s*vr, readresult_\s*\)', 'CheckReader(&vr, &readresult_)', 3),
+    (r'Handler\(\)\.OnObjno\(objno\);', 'vp_OnObjno(objno);', 2),
+    (r'Handler\(\)\.OnSolveCode\(Objno\[1\]\);', 'vp_OnSolveCode(Objno[1]);', 2),
+]
+
+BUFW = '__CPROVER_object_whole(buf)'
+MSG_ASSIGNS = 'L, L1, n, n1, b1, bs, nbs, se, g_nul_ptr, ' + BUFW
+RSF_LOOPS = {
+    # binary solve message
+    0: '__CPROVER_assigns(' + MSG_ASSIGNS + ', readresult_, g_serror_calls) __CPROVER_loop_invariant(1)',
+    1: '__CPROVER_assigns(' + MSG_ASSIGNS + ') __CPROVER_loop_invariant(L != 0)',
+    2: '__CPROVER_assigns(n) __CPROVER_loop_invariant(n <= sizeof(buf) && (n == 0 ==> buf[0] == \' \')) __CPROVER_decreases(n)',
+    3: '__CPROVER_assigns(n1, b1) __CPROVER_loop_invariant(n1 >= 1 && n1 <= n && n <= sizeof(buf) && b1 == buf + (n - n1)) __CPROVER_decreases(n1)',
+    # text solve message
+    4: '__CPROVER_assigns(' + MSG_ASSIGNS + ', readresult_, g_serror_calls) __CPROVER_loop_invariant(1)',
+    5: '__CPROVER_assigns(se, ' + BUFW + ') __CPROVER_loop_invariant(VP_NUL_AT_OR_AFTER(se) && __CPROVER_same_object(se, buf)) '
+       '__CPROVER_decreases(__CPROVER_POINTER_OFFSET(g_nul_ptr) - __CPROVER_POINTER_OFFSET(se))',
+    6: '__CPROVER_assigns(n1, b1) __CPROVER_loop_invariant(n1 >= 1 && n1 <= n && n <= sizeof(buf) && b1 == buf + (n - n1)) __CPROVER_decreases(n1)',
+    7: '__CPROVER_assigns(j) __CPROVER_loop_invariant(1)',
+    8: '__CPROVER_assigns(j, se, g_nul_ptr, ' + BUFW + ', __CPROVER_object_whole(Options)) __CPROVER_loop_invariant(0 <= j && j <= 4) __CPROVER_decreases(4 - j)',
+    9: '__CPROVER_assigns(j, se, g_nul_ptr, ' + BUFW + ', __CPROVER_object_whole(Options)) __CPROVER_loop_invariant(4 <= j && j <= je && je <= 14) __CPROVER_decreases(je - j)',
+    10: '__CPROVER_assigns(L) __CPROVER_loop_invariant(1)',
+}
+SUFREAD_DECL = '''
+NLW2_SOLReadResultCode gsufread(FILE *f) __CPROVER_requires(__CPROVER_r_ok(f, sizeof(FILE))) __CPROVER_ensures(%s)
+__CPROVER_assigns(readresult_, i, g_serror_calls, g_nul_ptr, g_big_hi, __CPROVER_object_whole(g_big));
+NLW2_SOLReadResultCode bsufread(FILE *f) __CPROVER_requires(__CPROVER_r_ok(f, sizeof(FILE))) __CPROVER_ensures(%s)
+__CPROVER_assigns(readresult_, i, g_serror_calls, g_big_hi, __CPROVER_object_whole(g_big));
+''' % (CODES + ' && ' + SUF_POST, CODES + ' && ' + SUF_POST)
+
+
+def readsolfile_fn():
+    c = ('__CPROVER_requires(g_num_vars >= 0 && g_num_algebraic_cons >= 0 && __CPROVER_r_ok(name, 1)) __CPROVER_ensures(' + CODES + ') '
+         '__CPROVER_assigns(stub_, internal_rv_, g_file_ok, L, L1, L2, binary, have_options, need_vbtol, bs, nbs, n, n1, b1, ' + BUFW + ', '
+         's, se, j, je, nOpts, __CPROVER_object_whole(Options), z, vbtol, x, i, nsv, sstatus_seen, ui, __CPROVER_object_whole(Objno), objno, '
+         'readresult_, g_serror_calls, g_nul_ptr, g_big_hi, __CPROVER_object_whole(g_big), __CPROVER_object_whole(g_errbuf))')
+    return Fn(HPP, r'SOLReader2<SOLHandler>::ReadSOLFile\(\s*const std::string& name\)',
+              'NLW2_SOLReadResultCode ReadSOLFile(const char *name)', contract=c, subst=RSF_SUBST, loops=RSF_LOOPS,
+              label='mp::SOLReader2::ReadSOLFile', nmatches=1)
+
+
+def h_readsolfile():
+    parts = [PRE, ENUM, VR, MEMBERS, RSF_MEMBERS] + structs() + report_fns() + [HANDLER, checkreader_fn(False), SUFREAD_DECL,
+                                                                                 readsolfile_fn(), '''
+void harness(void) { VP_INIT; vp_mkpool();
+  g_num_vars = nondet_int(); g_num_algebraic_cons = nondet_int();
+  __CPROVER_assume(g_num_vars >= 0 && g_num_algebraic_cons >= 0);
+  readresult_ = NLW2_SOLRead_Result_Not_Set; objno = -2; Objno[0] = -2; Objno[1] = -2;
+  ReadSOLFile("x.sol"); VP_REACH("normal return"); }
+''']
+    return Harness('C14.ReadSOLFile', 'C14', parts, enforce='ReadSOLFile', replace=['gsufread', 'bsufread'], loop_contracts=True,
+                   expect_loop_obligations=11, timeout=1800, object_bits=10,
+                   stubs=['File::Open', 'std::string solve_msg_ (append / trim / hand-over)', 'SOLHandler::OnAMPLOptions/OnObjno/OnSolveCode',
+                          'SOLHandler::OnDualSolution/OnPrimalSolution (assert the declared sizes, read all/some/none)',
+                          'gsufread / bsufread (contracts proved by C14.gsufread / C14.bsufread)'],
+                   note='whole function; vectors offered <= declared sizes are precondition checks of the handler stubs at the real call sites')
+
+
 def harnesses(tier, seed):
     hs = [h_decstring(), h_lget()]
     hs += [h_read(k) for k in KINDS]
     hs += [h_readnext(k) for k in KINDS]
-    hs += [h_sufheadcheck(), h_checkreader(), h_gsufread(), h_bsufread()]
+    hs += [h_sufheadcheck(), h_checkreader(), h_gsufread(), h_bsufread(), h_readsolfile()]
     return hs
